@@ -1,4 +1,149 @@
-import SynapModel.Ops
+import Proofs.AdjointAll
+/-!
+# C01 — Backward of every tensor op yields the exact vector-Jacobian product
+
+For a linear op `F` (or a bilinear op in one operand, the others fixed) the Jacobian-vector product
+in direction `v` is `F v`, and `B` is the vector-Jacobian product exactly when
+`⟪F v, g⟫ = ⟪v, B g⟫` for all `v, g`.  `IsAdjoint sa sy F B` bundles this identity with *totality*
+(whenever the forward call is accepted, backward returns) and the *shape* claim (the gradient has
+exactly the operand's shape).  `vjp_unique` shows the identity pins `B g` down completely, so
+"adjoint" is "equal to the VJP, and nothing else may differ".
+
+All statements: every shape of any rank (0-d and size-1 axes included), every argument value the
+forward accepts, every operand value, every upstream gradient, over any commutative ring.
+The pointwise transcendental ops are in `Proofs/PointwiseCalc.lean` (over ℝ, `HasDerivAt`).
+-/
 namespace Props.C01
-theorem placeholder : True := trivial
+open Synap Synap.NDArray Synap.Np Synap.Kernels Proofs.Adjoint Proofs.Core
+
+variable {R : Type} [CommRing R]
+
+/-- **The adjoint identity determines the backward kernel**: two kernels satisfying it for the same
+    linear forward agree on every gradient. -/
+theorem vjp_unique (sa sy : Shape) (F B B' : NDArray R → Option (NDArray R))
+    (h : IsAdjoint sa sy F B) (h' : IsAdjoint sa sy F B') (g : NDArray R) (hg : g.WF) (hs : g.shape = sy) :
+    B g = B' g := by
+  obtain ⟨_, b, _, hb, _, _, hbw, hbs, _⟩ := h (zeros sa) g (ofFn_wf _ _) rfl hg hs
+  obtain ⟨_, b', _, hb', _, _, hbw', hbs', _⟩ := h' (zeros sa) g (ofFn_wf _ _) rfl hg hs
+  rw [hb, hb']
+  congr 1
+  -- compare `b` and `b'` against every basis array
+  have key : ∀ i, validIdx sa i → b.get i = b'.get i := by
+    intro i hi
+    let e : NDArray R := ofFn sa (fun k => if k = i then 1 else 0)
+    obtain ⟨y1, c1, hy1, hc1, _, _, _, _, d1⟩ := h e g (ofFn_wf _ _) rfl hg hs
+    obtain ⟨y2, c2, hy2, hc2, _, _, _, _, d2⟩ := h' e g (ofFn_wf _ _) rfl hg hs
+    rw [hb] at hc1; rw [hb'] at hc2
+    cases hc1; cases hc2
+    rw [hy1] at hy2; cases hy2
+    have basis : ∀ c : NDArray R, dot e c = c.get i := by
+      intro c
+      rw [dot_ofFn, Proofs.Core.sum_map_ite_mul (allIdx sa) (allIdx_nodup sa) i c.get]
+      simp [(mem_allIdx sa i).mpr hi]
+    have e1 := basis b
+    have e2 := basis b'
+    rw [← e1, ← e2, ← d1, ← d2]
+  exact ext_get b b' hbw hbw' (by rw [hbs, hbs']) (by intro i hi; exact key i (by rwa [hbs] at hi))
+
+/-! ### data movement -/
+theorem transpose_vjp (a y : NDArray R) (d0 d1 : Int) (ha : a.WF) (h : transposeForward a d0 d1 = some y) :
+    IsAdjoint (R := R) a.shape y.shape (fun v => transposeForward v d0 d1) (fun g => transposeBackward g d0 d1) :=
+  transpose_adj a y d0 d1 ha h
+
+theorem movedim_vjp (a y : NDArray R) (src dst : Int) (ha : a.WF) (h : movedimForward a src dst = some y) :
+    IsAdjoint (R := R) a.shape y.shape (fun v => movedimForward v src dst) (fun g => movedimBackward g src dst) :=
+  movedim_adj a y src dst ha h
+
+theorem reshape_vjp (a y : NDArray R) (t : List Int) (ha : a.WF) (h : reshapeForward a t = some y) :
+    IsAdjoint (R := R) a.shape y.shape (fun v => reshapeForward v t) (fun g => reshapeBackward g a.shape) :=
+  reshape_adj a y t ha h
+
+theorem flatten_vjp (a y : NDArray R) (s e : Int) (ha : a.WF) (h : flattenForward a s e = some y) :
+    IsAdjoint (R := R) a.shape y.shape (fun v => flattenForward v s e) (fun g => reshapeBackward g a.shape) :=
+  flatten_adj a y s e ha h
+
+theorem squeeze_vjp (a y : NDArray R) (ax : Axes) (ha : a.WF) (h : squeezeForward a ax = some y) :
+    IsAdjoint (R := R) a.shape y.shape (fun v => squeezeForward v ax) (fun g => squeezeBackward g a.shape) :=
+  squeeze_adj a y ax ha h
+
+theorem unsqueeze_vjp (a y : NDArray R) (axes : List Int) (ha : a.WF) (h : unsqueezeForward a axes = some y) :
+    IsAdjoint (R := R) a.shape y.shape (fun v => unsqueezeForward v axes) (fun g => unsqueezeBackward g axes) :=
+  unsqueeze_adj a y axes ha h
+
+theorem unfold_dim_vjp (a y : NDArray R) (d sz st : Int) (ha : a.WF) (h : unfoldDimForward a d sz st = some y) :
+    IsAdjoint (R := R) a.shape y.shape (fun v => unfoldDimForward v d sz st) (fun g => unfoldDimBackward g a.shape d sz st) :=
+  unfoldDim_adj a y d sz st ha h
+
+/-- indexing: ints, slices with any step, ellipsis, newaxis, one integer list *with repeats*
+    (where the backward must accumulate) -/
+theorem slice_vjp (a y : NDArray R) (sels : List Sel) (ha : a.WF) (h : sliceForward a sels = some y) :
+    IsAdjoint (R := R) a.shape y.shape (fun v => sliceForward v sels) (fun g => sliceBackward g a.shape sels) :=
+  slice_adj a y sels ha h
+
+theorem neg_vjp (s : Shape) :
+    IsAdjoint (R := R) s s (fun v => some (negForward v)) (fun g => some (negBackward g)) := neg_adj s
+
+theorem clone_vjp (s : Shape) :
+    IsAdjoint (R := R) s s (fun v => some (cloneForward v)) (fun g => some (cloneBackward g)) := clone_adj s
+
+/-! ### broadcasting arithmetic, reductions, matrix products, join / split -/
+theorem add_vjp (a b y : NDArray R) (ha : a.WF) (hb : b.WF) (h : addForward a b = some y) :
+    IsAdjoint (R := R) a.shape y.shape (fun v => addForward v (zeros b.shape)) (fun g => some (addBackward g a.shape b.shape).1) ∧
+    IsAdjoint (R := R) b.shape y.shape (fun v => addForward (zeros a.shape) v) (fun g => some (addBackward g a.shape b.shape).2) :=
+  ⟨add_adj_left a b y ha hb h, add_adj_right a b y ha hb h⟩
+
+theorem mul_vjp (a b y : NDArray R) (ha : a.WF) (hb : b.WF) (h : mulForward a b = some y) :
+    IsAdjoint (R := R) a.shape y.shape (fun v => mulForward v b) (fun g => (mulBackward g a b).map (·.1)) ∧
+    IsAdjoint (R := R) b.shape y.shape (fun v => mulForward a v) (fun g => (mulBackward g a b).map (·.2)) :=
+  ⟨mul_adj_left a b y ha hb h, mul_adj_right a b y ha hb h⟩
+
+theorem sum_vjp (a y : NDArray R) (ax : Axes) (keep : Bool) (ha : a.WF) (h : sumForward a ax keep = some y) :
+    IsAdjoint (R := R) a.shape y.shape (fun v => sumForward v ax keep) (fun g => sumBackward g a.shape ax keep) :=
+  sum_adj a y ax keep ha h
+
+theorem matmul_vjp (a b y : NDArray R) (ha : a.WF) (hb : b.WF) (h : matmulForward a b = some y) :
+    IsAdjoint (R := R) a.shape y.shape (fun v => matmulForward v b) (fun g => (matmulBackward g a b).map (·.1)) ∧
+    IsAdjoint (R := R) b.shape y.shape (fun v => matmulForward a v) (fun g => (matmulBackward g a b).map (·.2)) :=
+  ⟨matmul_adj_left a b y ha hb h, matmul_adj_right a b y ha hb h⟩
+
+theorem addmm_vjp (a b c y : NDArray R) (ha : a.WF) (hb : b.WF) (hc : c.WF) (h : addmmForward a b c = some y)
+    (hb2 : b.shape.length = 2) (hc2 : c.shape.length = 2) :
+    IsAdjoint (R := R) a.shape y.shape (fun v => addmmForward v (zeros b.shape) c) (fun g => (addmmBackward g a b c).map (·.1)) ∧
+    IsAdjoint (R := R) b.shape y.shape (fun v => addmmForward (zeros a.shape) v c) (fun g => (addmmBackward g a b c).map (·.2.1)) ∧
+    IsAdjoint (R := R) c.shape y.shape (fun v => addmmForward (zeros a.shape) b v) (fun g => (addmmBackward g a b c).map (·.2.2)) :=
+  ⟨addmm_adj_a a b c y ha hb hc h hb2 hc2, addmm_adj_b a b c y ha hb hc h hb2 hc2, addmm_adj_c a b c y ha hb hc h hb2 hc2⟩
+
+theorem unbind_vjp (a : NDArray R) (axis : Int) (ys : List (NDArray R)) (ha : a.WF)
+    (h : unbindForward a axis = some ys) (k : Nat) (yk : NDArray R) (hk : ys[k]? = some yk) :
+    IsAdjoint (R := R) a.shape yk.shape (fun v => (unbindForward v axis).bind (·[k]?))
+      (fun g => unbindBackward g a.shape axis k) :=
+  unbind_adj a axis ys ha h k yk hk
+
+theorem stack_vjp (xs : List (NDArray R)) (axis : Int) (y : NDArray R) (hxs : ∀ x ∈ xs, x.WF)
+    (h : stackForward xs axis = some y) (k : Nat) (xk : NDArray R) (hk : xs[k]? = some xk) :
+    IsAdjoint (R := R) xk.shape y.shape
+      (fun v => stackForward ((xs.map (fun x => zeros x.shape)).set k v) axis)
+      (fun g => (stackBackward g axis).bind (·[k]?)) :=
+  stack_adj xs axis y hxs h k xk hk
+
+theorem concat_vjp (xs : List (NDArray R)) (axis : Int) (y : NDArray R) (hxs : ∀ x ∈ xs, x.WF)
+    (h : concatForward xs axis = some y) (k : Nat) (xk : NDArray R) (hk : xs[k]? = some xk) :
+    IsAdjoint (R := R) xk.shape y.shape
+      (fun v => concatForward ((xs.map (fun x => zeros x.shape)).set k v) axis)
+      (fun g => (concatBackward g (xs.map (·.shape)) axis).bind (·[k]?)) :=
+  concat_adj xs axis y hxs h k xk hk
+
+/-- mean over None / int / tuple dims (negative entries inside tuples included), over any field -/
+theorem mean_vjp {K : Type} [Field K] (a y : NDArray K) (ax : Axes) (keep : Bool) (ha : a.WF)
+    (h : meanForward a ax keep = some y) :
+    IsAdjoint (R := K) a.shape y.shape (fun v => meanForward v ax keep) (fun g => meanBackward g a.shape ax keep) :=
+  mean_adj a y ax keep ha h
+
+/-! ### Non-vacuity: a concrete broadcast (2×1×3 ⊕ 3), a movedim 0→2 on 2×3×4, a slice `[::-2, …, None, [0,0,1]]` are accepted -/
+example : (addForward (α := Int) (ofFn [2, 1, 3] (fun i => (i.getD 0 0 : Int) + i.getD 2 0)) (ofFn [3] (fun i => (i.getD 0 0 : Int)))).map (·.shape)
+    = some [2, 1, 3] := by decide
+example : (movedimForward (α := Int) (zeros [2, 3, 4]) 0 2).map (·.shape) = some [3, 4, 2] := by decide
+example : (sliceForward (α := Int) (zeros [3, 2, 2]) [.slice none none (-2), .ellipsis, .newaxis, .list [0, 0, 1]]).map (·.shape)
+    = some [2, 2, 1, 3] := by decide
+
 end Props.C01
